@@ -6,4 +6,4 @@ cd /verif
 export VERIF_SCRATCH=1   # evidence of runs against a modified /repo goes to .cache/scratch-evidence
 git -C /repo apply "$P" || { echo "PATCH DOES NOT APPLY to /repo"; exit 2; }
 for c in "$@"; do ./check "$c" 2>&1 | grep -E "VIOLATION|new violation|BROKEN|^  [A-Za-z-]+:" | cut -c1-260; done
-git -C /repo checkout -- .
+git -C /repo checkout -- . && git -C /repo clean -fdq src
